@@ -10,6 +10,8 @@ from ..model import AnalysisError, ClassInfo, External, FunctionInfo, own_nodes
 from .util import anchor_func, assigned_name, build_cfg, facts, switch_assumptions
 from . import opcontract
 
+TENSOR = "mygrad.tensor_base.Tensor"
+
 OB = "mygrad.operation_base"
 SENTINELS = {"True", "_NoValue", "None"}
 
@@ -403,7 +405,65 @@ def r03_10(run):
                    "in the same position")
     run.count("Python-int type tests", n)
 
+COMPARISONS = ("__eq__", "__ne__", "__lt__", "__le__", "__gt__", "__ge__")
+
+
+def r03_11(run):
+    """NumPy decides the result type of a binary operation from *both* operands.  A forward path that first converts one operand to the other
+    operand's dtype (`asarray(other, dtype=self.dtype)`, `other.astype(x.dtype)`) replaces that rule by a cast: `int_tensor < 1.5` compares
+    against 1.  Scope: the comparison operators of Tensor and every public function / Tensor method that is not a gradient seed or an explicit
+    dtype-changing API (astype, backward)."""
+    T = run.project.cls(TENSOR)
+    fns = [m for nm, m in T.methods.items() if (nm in COMPARISONS or (nm.startswith("__") and nm.endswith("__") and nm[2] in "airm" and nm not in ("__init__", "__array__")))]
+    for fi in run.project.all_functions():
+        if fi.cls is None and fi.parent is None and not fi.name.startswith("_") and fi.module.name.endswith(".funcs") and ".nnet." not in fi.module.name:
+            fns.append(fi)
+    n = 0
+    for m in fns:
+        params = set(m.params())
+        if len(params) < 2:
+            continue
+        n += 1
+
+        def root(e):
+            while isinstance(e, (ast.Attribute, ast.Subscript, ast.Call)):
+                e = e.func if isinstance(e, ast.Call) else e.value
+            return e.id if isinstance(e, ast.Name) else None
+        for k in own_nodes(m.node):
+            if not isinstance(k, ast.Call):
+                continue
+            conv, subj, dt = None, None, None
+            fname = (dotted(k.func) or "").split(".")[-1]
+            if isinstance(k.func, ast.Attribute) and k.func.attr == "astype" and (k.args or kw(k, "dtype") is not None):
+                conv, subj, dt = "astype", k.func.value, (k.args[0] if k.args else kw(k, "dtype"))
+            elif fname in ("asarray", "array", "asanyarray", "ascontiguousarray") and k.args and kw(k, "dtype") is not None:
+                conv, subj, dt = fname, k.args[0], kw(k, "dtype")
+            if conv is None or not (isinstance(dt, ast.Attribute) and dt.attr == "dtype"):
+                continue
+            tr, rr = root(dt.value), root(subj)
+            bad = tr in params and rr in params and tr != rr
+            if not bad and m.name not in COMPARISONS:
+                continue
+            run.ob("R03.11", loc(m, k), m.short, f"`{norm(k)[:50]}` does not convert an operand to a sibling operand's dtype", not bad,
+                   "conversion target is not another operand's dtype" if not bad else
+                   f"operand `{rr}` is converted to the dtype of `{tr}` before NumPy sees it: the result is computed in `{tr}`'s type instead of "
+                   f"NumPy's promoted type (mixed-dtype comparisons / arithmetic give different values than NumPy)")
+    for nm in COMPARISONS:
+        m = T.methods.get(nm)
+        ok = m is not None
+        if ok:
+            rets = [r for r in own_nodes(m.node) if isinstance(r, ast.Return) and isinstance(r.value, ast.Call)]
+            ok = bool(rets) and all((dotted(r.value.func) or "").endswith(f"ndarray.{nm}") or (dotted(r.value.func) or "").split(".")[-1] in (
+                nm.strip("_"), {"__eq__": "equal", "__ne__": "not_equal", "__lt__": "less", "__le__": "less_equal", "__gt__": "greater",
+                                "__ge__": "greater_equal"}[nm]) for r in rets)
+        run.ob("R03.11", loc(m, m.node) if m is not None else loc(T.module, T.node), f"{TENSOR[7:]}.{nm}", f"{nm} defers to NumPy's own {nm} on the arrays", ok,
+               f"np.ndarray.{nm}(self.data, <other as array>)" if ok else "comparison is not NumPy's comparison of the underlying arrays")
+    run.count("forward functions scanned for operand-to-operand dtype conversions", n)
+
+
 def check(run):
+    run.rule("R03.11", "no forward path converts one operand to a sibling operand's dtype; Tensor comparisons are NumPy's comparisons of the arrays", floor=6)
+    run.do(r03_11)
     run.rule("R03.1", "UnaryUfunc/BinaryUfunc/Sequential.__call__: operands reach the kernel in order; every option reaches it under its own "
              "name unless it holds its not-given sentinel", floor=15)
     run.rule("R03.2", "no dead parameter in any op forward pass or wrapper; one-line wrappers forward every parameter", floor=150)
